@@ -124,6 +124,16 @@ let handle (f : string array) : string =
       show (fun () -> "ok")
         (M.verify (fun c -> fst certs.(c)) (fun c -> snd certs.(c)) hash_sum parse_octets marshal check p7)
     end
+  | "SGN" ->
+    (* the signer info AddSigner builds: SGN id sm2|rsa sha1 sm3 time extras(oid~value+...) *)
+    let extra = List.map (fun a -> match String.split_on_char '~' a with
+        | [t; v] -> { M.at_type = oid_of t; M.at_value = bytes_of_hex v }
+        | _ -> failwith "bad attr") (split '+' f.(6)) in
+    let oid_str o = String.concat "." (List.map (fun x -> string_of_int (int_of_n x)) o) in
+    show (fun s ->
+        Printf.sprintf "ok %s %s %s" (oid_str s.M.si_digestAlg) (oid_str s.M.si_digestEncAlg)
+          (String.concat "+" (List.map (fun a -> oid_str a.M.at_type ^ "~" ^ hex_of_bytes a.M.at_value) s.M.si_attrs)))
+      (M.sgn_model (f.(2) = "sm2") (bytes_of_hex f.(3)) (bytes_of_hex f.(4)) (bytes_of_hex f.(5)) extra)
   | "SEL" ->
     (* recipient selection: Decrypt of P7Model over the rewritten recipient list; the wrapped key of an entry is
        modelled by its verdict ([1]: opens with our key, [0]: does not); identity content cipher over pad(content) *)
